@@ -169,6 +169,14 @@ def judge_mgr(sc, c):
             C["manager_originated_undeliverable"] = C.get("manager_originated_undeliverable", 0) + 1
             if dead or copies == 0:
                 mine = [n for n in named if (n["h_type"], n["h_src_mod"], n["h_dest_mod"]) == (W.MT_CLIENT_INFO, 0, 0)]
+                if dead:
+                    # a dead connection is discovered by whatever the manager writes to it first: with several dead
+                    # subscribers that can be the CLIENT_CLOSED of another one, and when the manager publishes its log
+                    # messages a subscriber to everything is found by a log message (which never produces a notice)
+                    mine = mine or [n for n in named if n["h_src_mod"] == 0 and n["h_type"] in (W.MT_CLIENT_CLOSED, W.MT_CLIENT_INFO)]
+                    if not named and c.get("_loud") and c["suball"][i]:
+                        C["dead_subscriber_found_by_log_message"] = C.get("dead_subscriber_found_by_log_message", 0) + 1
+                        continue
                 if not named:
                     V.append({"mech": "silent_loss_manager_message", "detail": f"CLIENT_INFO ({c['trig']}) could not be handed to {L} (mod {cs.mod_id}, logger={c['logger'][i]}, "
                                                                               f"nw={nw}, reset={dead}) and no FAILED_MESSAGE names it; notices: {[(n['dest_mod_id'], n['h_type']) for n in notices['m']]}"})
@@ -192,13 +200,13 @@ def judge_mgr(sc, c):
 
 
 def run_case(case, tier):
-    rig = ManagerRig(stepped=True, timecode=bool(case.get("tc")))
+    rig = ManagerRig(stepped=True, timecode=bool(case.get("tc")), loud=bool(case.get("n", 0) % 4 == 2))   # every fourth case: the manager publishes its own log messages
     try:
         sc = Scenario(rig, 0)
         sc.vary_source = True
         if case.get("kind") == "mgr":
             sc.run(build_mgr(case))
-            return judge_mgr(sc, case)
+            return judge_mgr(sc, dict(case, _loud=bool(case.get("n", 0) % 4 == 2)))
         sc.run(build(case))
         return judge(sc, case)
     finally:
